@@ -131,6 +131,7 @@ func (vm *VM) resetPath(prefix []Decision) {
 	vm.stdout, vm.stderr, vm.stdin, vm.vfs = nil, nil, nil, nil
 	vm.onceSyms = nil
 	vm.hazardSeen = false
+	vm.permUsed = 0
 	vm.frozenOn = false
 	vm.frozen, vm.frozenMaps = nil, nil
 }
